@@ -194,7 +194,7 @@ where
         return run_domain::<R>(lo, hi, rc);
     }
     let clock0 = case.get_i64("clock0", 0) as i32;
-    let (r, _, _) = lib_call(None, u64::MAX, false, || SegExpTree::<R, i32, SegVal>::new(SegRange { min: R::from_i64(lo), max: R::from_i64(hi) }));
+    let (r, _, _) = lib_call(None, crate::run::INTERNAL_BUDGET, false, || SegExpTree::<R, i32, SegVal>::new(SegRange { min: R::from_i64(lo), max: R::from_i64(hi) }));
     let tree = match r {
         Ok(Some(t)) => t,
         Ok(None) => {
@@ -379,7 +379,7 @@ where
             S_CLEAR => {
                 self.out.callbacks.push(0);
                 let tree = &mut self.tree;
-                let (r, _, _) = lib_call(None, u64::MAX, false, || tree.clear());
+                let (r, _, _) = lib_call(None, crate::run::INTERNAL_BUDGET, false, || tree.clear());
                 if let Err(e) = r {
                     return self.on_call_err(i, e, &[12], "clear");
                 }
@@ -683,7 +683,7 @@ where
         let t = self.clock;
         let range = SegRange { min: R::from_i64(self.lay.lo), max: R::from_i64(self.lay.hi) };
         let tree = &mut self.tree;
-        let (r, _, _) = lib_call(None, u64::MAX, false, || {
+        let (r, _, _) = lib_call(None, crate::run::INTERNAL_BUDGET, false, || {
             let mut v: Vec<u32> = tree.iter_by_range(range, t).map(|v| v.id).collect();
             v.sort();
             v
@@ -719,7 +719,7 @@ where
 {
     let mut out = Outcome::default();
     let len = hi as i128 - lo as i128 + 1;
-    let (r, _, _) = lib_call(None, u64::MAX, false, || SegExpTree::<R, i32, SegVal>::new(SegRange { min: R::from_i64(lo), max: R::from_i64(hi) }));
+    let (r, _, _) = lib_call(None, crate::run::INTERNAL_BUDGET, false, || SegExpTree::<R, i32, SegVal>::new(SegRange { min: R::from_i64(lo), max: R::from_i64(hi) }));
     let built = match r {
         Ok(t) => t,
         Err(e) => {
@@ -777,7 +777,7 @@ where
         let range = SegRange { min: R::from_i64(*x), max: R::from_i64(*x) };
         let val = SegVal { id: j as u32, exp: 10 };
         let t = &mut tree;
-        let (r, _, _) = lib_call(None, u64::MAX, false, || t.insert_by_range(range, val));
+        let (r, _, _) = lib_call(None, crate::run::INTERNAL_BUDGET, false, || t.insert_by_range(range, val));
         if let Err(e) = r {
             out.fail(if rc.obs(14) { 14 } else { 10 }, "point-insert-panicked", 0, format!("SegExpTree::<{}> over [{}, {}]: insert at point {} failed: {:?}", R::NAME, lo, hi, x, e));
             return out;
@@ -795,7 +795,7 @@ where
     for y in pts.iter() {
         let range = SegRange { min: R::from_i64(*y), max: R::from_i64(*y) };
         let t = &mut tree;
-        let (r, _, _) = lib_call(None, u64::MAX, false, || {
+        let (r, _, _) = lib_call(None, crate::run::INTERNAL_BUDGET, false, || {
             let mut v: Vec<u32> = t.iter_by_range(range, 0).map(|v| v.id).collect();
             v.sort();
             v
